@@ -6,6 +6,13 @@ OBLIGATIONS = [
     dict(_m.BASE, name="equ_set_rules", src="../C01/symtab.c", defs=["K_EQUSET", "STRINGSIZE=16"],
          functions=["asmpars.c:EnterIntSymbolWithFlags", "EnterSymbol", "SymbolAdder", "LookupSymbol", "FindNode"],
          bounds="one symbol, two definitions with arbitrary values and arbitrary EQU/SET kind, then a reference"),
+    dict(_m.BASE, name="section_order", src="../C01/symtab.c", defs=["K_SECTION", "STRINGSIZE=16"],
+         functions=["asmpars.c:LookupSymbol", "FindNode", "FindNode_FNode", "EnterSymbol", "EnterIntSymbolWithFlags"],
+         bounds="one name defined in any subset of {global, outer section, inner section} with arbitrary values, referenced from the inner section unqualified, as name[] and as name[outer]"),
+    dict(name="ppsyms", src="ppsyms.c", include=["asmallg.c"], units=["asmdef.c", "strcomp.c", "dynstr.c"], stubs=["diag.c", "fmt_off.c"], defs=["STRINGSIZE=16"],
+         unwind=12, functions=["asmallg.c:CodePPSyms", "asmallg.c:CodePPSyms_SearchSym", "strcomp.c:StrCompSplitRef"], timeout=900,
+         bounds="PUBLIC/GLOBAL/FORWARD list of two entries, each with or without a :section qualifier",
+         assumes=["IdentifySection cut to a map from qualifier text to a handle", "ExpandStrSymbol = copy; concrete one-letter names"]),
 ]
 META = dict(outside=["temporary symbols (ChkTmp1/2/3 build names with sprintf)", "IdentifySection parsing of PARENTn/names", "composed .name symbols",
                      "section resolution order, PUBLIC/GLOBAL/FORWARD, local handles, PUSHV/POPV, case folding, trees.c (pending)"],
